@@ -26,7 +26,7 @@ static void install(C& c, S& s)
         M, s, [&](uint64_t& k) { k = s.u64(); },
         [&](typename C::keyed_element& ke) {
 #ifndef C_IS_UTSET
-            ke.m_value = s.u64();
+            ke.m_value = VAL_T(s.u64());
 #endif
             ke.m_ttl_position.i = s.u64();
             ke.m_ttl_position.l = s.b() ? &L : nullptr;
@@ -88,7 +88,7 @@ static void alpha(C& c, Abs& a)
             auto& nd = M.m_pool[te.m_keyed_elements_position.i];
             a.k[p]   = nd.kv.first;
 #ifndef C_IS_UTSET
-            a.v[p] = nd.kv.second.m_value;
+            a.v[p] = val_u(nd.kv.second.m_value);
 #endif
             a.d[p] = tp_i(te.m_expire_time);
             t      = L.m_pool[t].next;
